@@ -11,6 +11,7 @@ import (
 
 	"github.com/jhalter/mobius/verifh/explore"
 	"github.com/jhalter/mobius/verifh/ref"
+	"github.com/jhalter/mobius/verifh/vrt"
 	"github.com/jhalter/mobius/verifh/world"
 )
 
@@ -385,7 +386,100 @@ func c09Cases(thorough bool) []c09Case {
 	return cs
 }
 
+// c09Race (E-SCHED): the client's connection is cut while the server has not yet consumed everything
+// that arrived, and the client asks to resume at once. Whatever the interleaving of the draining
+// transfer and the resume request: a refused resume may be retried, and the upload resumed from the
+// offset the server reports completes to the identical file.
+func c09Race(segments int) func() explore.SchedOutcome {
+	return func() (out explore.SchedOutcome) {
+		fail := func(clause, detail string) {
+			out.Violations = append(out.Violations, explore.SchedV{Signature: "C09/race/" + clause, Detail: detail})
+		}
+		vrt.BeginSetup()
+		wd := world.New(world.Cfg{Accounts: []world.Acct{{Login: "guest", Name: "Guest"}, {Login: "u", Name: "u", Password: "pw", Access: world.AllAccess}},
+			Files: func(root string) { _ = os.MkdirAll(filepath.Join(root, "Uploads"), 0755) }})
+		defer wd.Close()
+		u, r := wd.Connect("10.0.0.1:1001", "u", "pw", "u")
+		if r == nil || r.Err != 0 {
+			fail("setup", "login failed")
+			return
+		}
+		data := c08Data(100)
+		info := ref.NewInfoFork("up.bin", "BINA", "hDmp", "")
+		final := filepath.Join(wd.FileRoot, "Uploads", "up.bin")
+		request := func(resume bool) (*ref.Tx, uint32) {
+			fs := []ref.Fld{ref.FS(ref.FFileName, "up.bin"), ref.F(ref.FFilePath, ref.PathBytes("Uploads"))}
+			if resume {
+				fs = append(fs, ref.F16(ref.FFileXferOptions, 1))
+			} else {
+				fs = append(fs, ref.F32(ref.FTransferSize, 300))
+			}
+			return nil, u.Req(ref.TUploadFile, fs...)
+		}
+		_, id := request(false)
+		world.Quiet()
+		rep := u.Reply(id)
+		if rep == nil || rep.Err != 0 {
+			fail("setup", "upload request refused")
+			return
+		}
+		refnum, _ := rep.Get(ref.FRefNum)
+		stream := append(ref.Preamble(refnum, 0), ref.FlatFile(info, data, nil)...)
+		hdr := 16 + ref.FlatFileHeaderLen(info)
+		conn := wd.DialTransfer("10.0.0.1:2001")
+		conn.Feed(stream[:hdr])
+		world.Settle(time.Second)
+		vrt.EndSetup()
+		// the data arrives in segments, the connection is cut, and the client asks to resume straight away
+		for i := 0; i < segments; i++ {
+			conn.Feed(stream[hdr+10*i : hdr+10*i+10])
+		}
+		conn.Reset()
+		_, rid := request(true)
+		vrt.WaitQuiet()
+		rrep := u.Reply(rid)
+		if rrep == nil || rrep.Err != 0 {
+			// refused while the old transfer was still running: the client tries again once things are quiet
+			_, rid = request(true)
+			vrt.WaitQuiet()
+			rrep = u.Reply(rid)
+			if rrep == nil || rrep.Err != 0 {
+				fail("resume-refused-although-nothing-is-running", fmt.Sprint(rrep))
+				return
+			}
+		}
+		rd, has := rrep.Get(ref.FFileResumeData)
+		off, err := ref.DecodeResumeData(rd)
+		if !has || err != nil || int(off) > len(data) {
+			fail("resume-data-undecodable", fmt.Sprintf("%v %v offset %d", has, err, off))
+			return
+		}
+		ref2, _ := rrep.Get(ref.FRefNum)
+		c2 := wd.DialTransfer("10.0.0.1:2002")
+		c2.Feed(append(ref.Preamble(ref2, 0), ref.FlatFile(info, data[off:], nil)...))
+		vrt.Settle(10 * time.Second)
+		got, rerr := os.ReadFile(final)
+		if rerr != nil {
+			fail("completed-upload-not-published", rerr.Error())
+		} else if !bytes.Equal(got, data) {
+			fail("published-file-differs-from-what-was-sent", fmt.Sprintf("the server reported offset %d while the cut transfer was still being consumed; resumed from there the published file has %d bytes (equal prefix %d), sent %d", off, len(got), commonPrefix(got, data), len(data)))
+		}
+		for _, pn := range vrt.S.Panics() {
+			fail("panic/"+vrt.PanicSite(pn), pn)
+		}
+		out.Canon = fmt.Sprintf("offset=%d final=%d", off, len(got))
+		return out
+	}
+}
+
 func runC09(w *explore.Worker) {
+	bound := 1
+	if w.Thorough {
+		bound = 2
+	}
+	for _, seg := range []int{3, 7} {
+		explore.ExploreSchedules(w, explore.SchedConfig{Harness: "C09race", Params: fmt.Sprint(seg), Bound: bound, FreeCost: 1, MaxSteps: 20000, Suspend: true}, c09Race(seg))
+	}
 	cs := c09Cases(w.Thorough)
 	for i, c := range cs {
 		if !w.Next() {
@@ -408,6 +502,19 @@ func runC09(w *explore.Worker) {
 }
 
 func replayC09(w *explore.Worker, raw json.RawMessage) {
+	var sr explore.SchedReplay
+	if json.Unmarshal(raw, &sr) == nil && sr.Kind == "schedule" {
+		seg := 3
+		fmt.Sscan(sr.Params, &seg)
+		_, out, err := explore.RunSchedule(sr.Choices, 20000, c09Race(seg))
+		if err != nil {
+			w.Broken("replay: %v", err)
+		}
+		for _, v := range out.Violations {
+			w.Violation(v.Signature, v.Detail, 0, sr)
+		}
+		return
+	}
 	var c c09Case
 	if err := json.Unmarshal(raw, &c); err != nil {
 		w.Broken("bad replay: %v", err)
